@@ -119,6 +119,9 @@ impl OutputFormat for Artworx {
         loop {
             for _ in 0..result.get_width() {
                 if o + 2 > file_size {
+                    // Buffer::new pre-allocated 25 rows: a shorter picture must not inherit them
+                    let rows = pos.y + i32::from(pos.x > 0);
+                    result.layers[0].lines.truncate(rows as usize);
                     crate::crop_loaded_file(&mut result);
                     return Ok(result);
                 }
